@@ -106,8 +106,8 @@ class LinksHTMLParser(HTMLParser):
         )
 
     def handle_starttag(self, tag: str, attrs: List[Tuple[str, Optional[str]]]) -> None:
-        self.active_link = None
         if tag == "a":
+            self.active_link = None
             self.active_skip = False
             requires_python = None
             for attr in attrs:
@@ -128,6 +128,10 @@ class LinksHTMLParser(HTMLParser):
                         requires_python,
                         self.active_link,
                     )
+
+    def handle_endtag(self, tag: str) -> None:
+        if tag == "a":
+            self.active_link = None
 
     def handle_data(self, data: str) -> None:
         if self.active_link is None or self.active_skip:
